@@ -11,6 +11,29 @@ sys.path.insert(0, ROOT)
 NOTES = {}          # property -> (level text, level note, technique) filled from the module docstrings below
 NOT_APPLICABLE = {} # property -> reason (static analysis cannot decide any clause)
 
+TECHNIQUE = {
+    'C01': 'abstract evaluation of the sighash writers to byte-layout terms (SYM/LAYOUT) compared part by part with BIP143 / legacy SignatureHash; CFG dispatch rules',
+    'C02': 'CFG must-pass-through and guard rules on sign/verify paths, abstract evaluation of the verified digest and argument order, sibling agreement with C01/C13 obligations',
+    'C03': 'abstract evaluation of CKDpriv/CKDpub to layout terms, interval partition of the child index (INTV), guard/raise rules on hardened derivation from public keys',
+    'C04': 'table rules over networks.json and the address builders evaluated per (script type, witness version, encoding); semantic cache-validity rule for Key.address',
+    'C05': 'template table compared with the standard scripts through the replayed opcode table; scenario evaluation of the network guard; decoder table evaluation; provenance rules for the payload and witness version',
+    'C06': 'stream-access log of the parser vs. layout of the serialiser (SYM/LAYOUT), per-field write(parse(bytes)) term rewriting, sibling agreement of the block/transaction readers',
+    'C07': 'SQLAlchemy query-shape rules (QUERY), CFG guard rules on input selection and fee arithmetic evaluated over interval partitions',
+    'C08': 'query-shape and column-map rules on the wallet persistence layer, CFG ordering rules (store before commit), sibling agreement of store/load column maps',
+    'C09': 'table rule on WALLET_KEY_STRUCTURES, abstract evaluation of path_expand on every template, query-shape rule for the next index, scenario evaluation of account defaults, sibling agreement of WalletKey.from_key call sites',
+    'C10': 'call-site rules for key sorting / threshold on the address and the spend side, provenance (DFA) of the verified Signature objects, assignment-after-create rules on the three import paths, CFG reachability of the broadcast call',
+    'C11': 'regex/alphabet and polymod-constant table rules for bech32/bech32m, abstract evaluation of the checksum constant selection per witness version, length/case guard rules',
+    'C12': 'segment-layout evaluation (SEG) of the WIF / extended-key readers on the writers\' layouts with symbolic fixed-width fields, exhaustive prefix-table round trip over networks x witness types x multisig x privacy, scenario evaluation of format detection, cache and network hint',
+    'C13': 'interval/decision-table evaluation of the signature range checks and low-S normalisation, DER layout terms, argument-order rules shared with C02',
+    'C14': 'abstract evaluation of entropy<->mnemonic bit layout, word-list table rules, normalisation-form provenance rule',
+    'C15': 'taint/provenance rule: every default secret derives from os.urandom / SystemRandom on all paths (DFA), positive fixture',
+    'C16': 'containment taint fixpoint for private material over repr/str/log/dict sinks and the public() API',
+    'C17': 'structural rules on the rounding idiom, case-exactness taint over the denominator table, table evaluation of print precision and prefix shadowing, CFG guard rules for integer discipline, scenario evaluation of unit parsing',
+    'C18': 'interval partition of CompactSize / varint writers and readers, prefix-totality and length-provenance rules, base58 alphabet case rule',
+    'C19': 'symbolic stack-effect inference (STACK) per opcode handler compared with a reference table, registry exhaustiveness, truthiness/timelock decision tables',
+    'C20': 'query-shape, error-discipline (no swallowed provider failure) and cache-consistency rules over the service layer, CFG raise/skip rules',
+}
+
 
 def main():
     props = [json.loads(l) for l in open(os.path.join(ROOT, 'properties.jsonl'))]
@@ -19,7 +42,10 @@ def main():
         {'name': 'IDX/TABLE', 'path': 'sa/core.py', 'kind_free_text': 'package index, import/star-import resolution, MRO, constant folding, opcode table replay, obligation/known-finding/evidence protocol', 'serves_properties': []},
         {'name': 'CFG', 'path': 'sa/cfg.py', 'kind_free_text': 'statement-level control-flow graphs with short-circuit splitting; must-pass-through / guarded-by queries', 'serves_properties': []},
         {'name': 'DFA', 'path': 'sa/dfa.py', 'kind_free_text': 'reaching definitions, expression provenance, dominating guards', 'serves_properties': []},
-        {'name': 'SYM (LAYOUT/ENUM/STACK/INTV)', 'path': 'sa/sym.py', 'kind_free_text': 'abstract evaluator producing layout terms, decision tables, stack effects and interval partitions (sa/layout.py, sa/intv.py)', 'serves_properties': []},
+        {'name': 'SYM (LAYOUT/ENUM/STACK/INTV)', 'path': 'sa/sym.py', 'kind_free_text': 'abstract evaluator producing layout terms, decision tables, stack effects and interval partitions (sa/layout.py, sa/intv.py, sa/stack.py)', 'serves_properties': []},
+        {'name': 'SEG', 'path': 'sa/seg.py', 'kind_free_text': 'evaluation of byte-string terms over segment layouts (concrete bytes and symbolic fixed-width fields); reports decisions that depend on payload bytes', 'serves_properties': []},
+        {'name': 'QUERY', 'path': 'sa/query.py', 'kind_free_text': 'shapes of SQLAlchemy query chains (models, joins, filters, order, terminal)', 'serves_properties': []},
+        {'name': 'MUT', 'path': 'sa/mut.py', 'kind_free_text': 'in-memory AST canary mutants: every obligation must flip on its canaries in the thorough tier (self-test of the checker, no code is executed)', 'serves_properties': []},
     ]
     for p in props:
         pid = p['id']
@@ -45,7 +71,7 @@ def main():
             },
             'level_note': 'Obligations: %s. Trusted base: Python ast, the analyser itself (sa/*.py), %s. Quantities decided only '
                           'structurally; values computed by third-party primitives (hashlib, fastecdsa, SQLAlchemy) are assumed correct.' % (obl, '; '.join(prop.assumptions)),
-            'technique': getattr(mod, 'TECHNIQUE', 'custom AST/CFG/dataflow checkers and an abstract evaluator (layout terms, decision tables, interval partitions) over the repository source'),
+            'technique': 'static analysis (python ast, no execution of /repo): ' + TECHNIQUE.get(pid, 'custom AST/CFG/dataflow checkers and an abstract evaluator over the repository source'),
         })
         for e in engines:
             e['serves_properties'].append(pid)
